@@ -193,7 +193,9 @@ INPLACE = {"add", "subtract", "multiply", "divide", "floor_divide", "remainder"}
 BINARY = (list(HOM1) + list(CMP) + ["multiply", "divide", "floor_divide", "arctan2", "copysign", "heaviside", "matmul", "dot", "vecdot"])
 UNARY = list(UN1) + ["sqrt", "cbrt", "square", "reciprocal", "power", "sign", "sin", "cos", "tan"]
 REDUCE = [("add", "reduce"), ("add", "accumulate"), ("maximum", "reduce"), ("minimum", "reduce"), ("multiply", "reduce"),
-          ("divide", "reduce"), ("multiply", "outer"), ("add", "outer"), ("divide", "outer"), ("maximum", "accumulate")]
+          ("divide", "reduce"), ("multiply", "outer"), ("add", "outer"), ("divide", "outer"), ("maximum", "accumulate"),
+          # `reduce` without an axis keyword: NumPy reduces along axis 0
+          ("multiply", "reduce0"), ("divide", "reduce0"), ("add", "reduce0"), ("maximum", "reduce0")]
 ANGLE = tuple(Fraction(int(i == 4)) for i in range(8))
 
 
@@ -356,6 +358,8 @@ def try_reduce(uf, method, a, b, pow2):
             return None
         if A.ndim == 0:
             return None
+        if method == "reduce0":
+            method = "reduce"
         n = A.shape[0]
         if uf == "add":
             f = np.add.reduce if method == "reduce" else np.add.accumulate
@@ -430,7 +434,7 @@ def gen_program(rng, groups, unit_of, pow2, max_depth, max_nodes, force_op=None)
     shapes = [(), (3,), (3,), (2, 3), (3, 3)]
     for i in range(nleaves):
         g = rng.choice(gidx) if rng.random() < 0.8 else pick()
-        shape = rng.choice(shapes[:3]) if i else (3,)
+        shape = rng.choice(shapes) if i else rng.choice([(3,), (3,), (2, 3)])
         vals = leaf_values(rng, shape, pow2)
         u0 = unit_of(groups[g][1][0])
         P.leaves.append((vals, g))
@@ -558,6 +562,8 @@ def run(tier, seed):
             out = unyt_array(np.zeros(shape), "dimensionless", registry=reg) if custom else unyt_array(np.zeros(shape), "dimensionless")
             f(a, b, out=out) if b is not None else f(a, out=out)
             return out
+        if form == "reduce0":
+            return getattr(np, op).reduce(a)
         if form in ("reduce", "accumulate"):
             return getattr(getattr(np, op), form)(a, axis=0)
         if form == "outer":
@@ -584,6 +590,8 @@ def run(tier, seed):
             sh = f"np.broadcast_shapes(np.shape({a}), np.shape({b}))" if b else f"np.shape({a})"
             call = f"np.{op}({a}, {b}, out=v{i})" if b else f"np.{op}({a}, out=v{i})"
             return f"v{i} = Q(np.zeros({sh}), 'dimensionless'); {call}"
+        if form == "reduce0":
+            return f"v{i} = np.{op}.reduce({a})"
         if form in ("reduce", "accumulate"):
             return f"v{i} = np.{op}.{form}({a}, axis=0)"
         if form == "outer":
@@ -598,6 +606,8 @@ def run(tier, seed):
             return f"r{i} = {a} @ {b}"
         if op == "power":
             return f"r{i} = np.power({a}, {float(p)!r})"
+        if form == "reduce0":
+            return f"r{i} = np.{op}.reduce({a})"
         if form in ("reduce", "accumulate"):
             return f"r{i} = np.{op}.{form}({a}, axis=0)"
         if form == "outer":
@@ -641,6 +651,7 @@ def run(tier, seed):
             if nd.desc[0] == "leaf":
                 continue
             op, form = nd.desc[0], nd.desc[1]
+            kop = op if form in ("call", "op", "iop", "out") else f"{op}.{form}"
             kinds = [o[i][0] for o in outcomes]
             if all(k == "skip" for k in kinds):
                 continue
@@ -649,7 +660,7 @@ def run(tier, seed):
             if any(e == "RecursionError" for _s, e in excs):
                 # the out= fix-up `multiply(out, mul, out=out)` re-entering the dispatcher without end
                 s_idx = [s_ for s_, e in excs if e == "RecursionError"][0]
-                chk.fail(f"{op}|recursion", f"{op} ({form}): RecursionError (in-place / out= result whose coefficient is not 1 on an array whose own unit simplifies to a coefficient)",
+                chk.fail(f"{kop}|recursion", f"{op} ({form}): RecursionError (in-place / out= result whose coefficient is not 1 on an array whose own unit simplifies to a coefficient)",
                          {"python": make_snippet(P, gs, custom, spellings[s_idx], i, "recursion"), "program": describe(P, gs, i),
                           "spelling": [gs[g][1][k] for (_v, g), k in zip(P.leaves, spellings[s_idx])]})
                 return
@@ -664,7 +675,7 @@ def run(tier, seed):
                 chk.count(f"refused:{op}:{excs[0][1]}")
                 # refused in every spelling: no result, nothing to compare — but the refusal of an
                 # operation the property covers on commensurable operands is reported
-                chk.fail(f"{op}|refused|{excs[0][1]}", f"{op} ({form}) on commensurable zero-offset quantities raised {excs[0][1]} in every spelling",
+                chk.fail(f"{kop}|refused|{excs[0][1]}", f"{op} ({form}) on commensurable zero-offset quantities raised {excs[0][1]} in every spelling",
                          {"python": make_snippet(P, gs, custom, spellings[0], i, "refused"), "program": describe(P, gs, i)})
                 return
             bad = None
@@ -681,7 +692,7 @@ def run(tier, seed):
                     break
             if bad:
                 s_idx, kind, msg = bad
-                chk.fail(f"{op}|{kind}", f"{op} ({form}): {msg}",
+                chk.fail(f"{kop}|{kind}", f"{op} ({form}): {msg}",
                          {"python": make_snippet(P, gs, custom, spellings[s_idx], i, kind), "program": describe(P, gs, i),
                           "spelling": [gs[g][1][k] for (_v, g), k in zip(P.leaves, spellings[s_idx])]})
                 return
@@ -814,7 +825,10 @@ def run(tier, seed):
                 if not cands:
                     continue
                 b = rng.choice(cands)
-                r = try_binary(op, P.nodes[a], P.nodes[b], P.pow2)
+                try:
+                    r = try_binary(op, P.nodes[a], P.nodes[b], P.pow2)
+                except ValueError:  # shapes that do not broadcast
+                    continue
                 if r is None or not np.all(np.isfinite(np.asarray(r[0], dtype=float))):
                     continue
                 if np.any(np.abs(np.asarray(r[0], dtype=float)) > 1e150):
@@ -855,7 +869,10 @@ def run(tier, seed):
                 b = None
                 if method == "outer":
                     b = rng.choice(qty)
-                r = try_reduce(uf, method, P.nodes[a], P.nodes[b] if b is not None else None, P.pow2)
+                try:
+                    r = try_reduce(uf, method, P.nodes[a], P.nodes[b] if b is not None else None, P.pow2)
+                except ValueError:
+                    continue
                 if r is None or not np.all(np.isfinite(np.asarray(r[0], dtype=float))):
                     continue
                 if np.any(np.abs(np.asarray(r[0], dtype=float)) > 1e150):
@@ -993,7 +1010,7 @@ def run(tier, seed):
         op, form, args, p = nd.desc
         if op == "leaf":
             return True
-        if form in ("reduce", "accumulate", "outer"):
+        if form in ("reduce", "reduce0", "accumulate", "outer"):
             return False
         return (op in PB and len(args) == 2) or (op in PU and len(args) == 1) or op == "power"
 
@@ -1317,6 +1334,12 @@ def run(tier, seed):
     if not ok:
         chk.fail("arith|registry-lost", "t = arctan2(a, a); t * t.dot(a) raises SymbolNotFoundError for a in a custom registry",
                  {"python": snippet_header(True) + "a = Q([1.0, 2.0], 'xla**2')\nt = np.arctan2(a, a)\nw = t * t.dot(a)\nassert np.all(np.isfinite(SI(w))), w\n"})
+
+    x2 = unyt_array(np.full((3, 3), 2.0), "km")
+    r2 = np.multiply.reduce(x2)
+    if not (np.all(si_of(r2) == 8.0e9) and gen.dim_vec(r2.units.dimensions) == "0,3,0,0,0,0,0,0"):
+        chk.fail("multiply.reduce0|si", "np.multiply.reduce(x) of a 3x3 array in km is labelled km**9 (NumPy reduces along axis 0: three factors)",
+                 {"python": hdr + "x = Q(np.full((3, 3), 2.0), 'km')\nr = np.multiply.reduce(x)\nassert np.all(SI(r) == 8.0e9), (r, SI(r))\n"})
 
     chk.assumptions = [
         "kernels whose homogeneity class is assumed, not proved: fmod, fmax/fmin (NaN handling aside they are max/min), nextafter, copysign, arctan2, matmul/vecdot (finite sums of products)",
